@@ -125,6 +125,17 @@ structure MsgWriter (μ σ : Type) where
   send : σ → Option μ → Option String × σ
   flush : σ → Option String × σ
 
+/-- An `sse.ResponseWriter` (an `http.ResponseWriter` with `Flush() error`; external code): a state, what `Write(p)`
+and `Flush()` answer and become, and what the assignment `Header()[key] = values` does to the state. Handed to a
+callee as its `io.Writer` it is `resWriter`: the same state and `Write`. -/
+structure ResW (σ : Type) where
+  st : σ
+  write : σ → Bytes → Int × Option String × σ
+  flush : σ → Option String × σ
+  setHeader : σ → Bytes → List Bytes → σ
+
+def resWriter {σ : Type} (r : ResW σ) : Writer σ := { st := r.st, write := r.write }
+
 /-- The field source of event.go (`*parser.Parser`, which is not translated: the split wrapper `parser.New` installs
 writes to the parser from inside `bufio.Scanner.Scan`): a state, what `Next(&f)` answers — whether there is a field,
 the field variable afterwards, the new state — and what `Err()` answers. `φ` is the field type. -/
